@@ -9,6 +9,14 @@ UP = $(shell echo $(P) | tr a-z A-Z)
 .PHONY: build prop coq models clean coqchk
 build: coq models
 
+# _CoqProject lists every .v under coq/ except the extraction scripts; it is
+# regenerated whenever the set of files changes.
+COQV := $(shell cd coq && find Lib Json Extracted K Mro Proofs Properties -name '*.v' 2>/dev/null | LC_ALL=C sort)
+coq/_CoqProject: FORCE
+	@(echo "-Q . Martian"; for f in $(COQV); do echo $$f; done) > coq/_CoqProject.new; \
+	if cmp -s coq/_CoqProject.new coq/_CoqProject; then rm coq/_CoqProject.new; else mv coq/_CoqProject.new coq/_CoqProject; fi
+FORCE:
+
 coq/Makefile: coq/_CoqProject
 	cd coq && coq_makefile -f _CoqProject -o Makefile
 
@@ -26,7 +34,7 @@ model:
 	mkdir -p ocaml/$(P)
 	cd ocaml/$(P) && coqc -Q ../../coq Martian ../../coq/Extract/$(P).v > extract.log 2>&1 || (cat extract.log; exit 1)
 	rm -f coq/Extract/$(P).vo coq/Extract/$(P).glob coq/Extract/.$(P).aux
-	cat ocaml/src/common.ml ocaml/src/$(P).ml ocaml/src/main.ml > ocaml/$(P)/driver.ml
+	cat ocaml/src/common.ml $(addprefix ocaml/src/,$(shell sed -n 's/^(\*#use \(.*\)\*)$$/\1/p' ocaml/src/$(P).ml)) ocaml/src/$(P).ml ocaml/src/main.ml > ocaml/$(P)/driver.ml
 	cd ocaml/$(P) && ocamlfind ocamlopt -O2 -w -a model.mli model.ml driver.ml -o model
 
 coqchk: coq
